@@ -4,7 +4,7 @@ Each returns a list of {"key": mechanism-signature, "msg": text} plus counters.
 """
 import traceback
 
-from . import irbuild, irview, rewrite, vocab
+from . import common, irbuild, irview, rewrite, vocab
 
 
 # ------------------------------------------------------------------ helpers
@@ -55,7 +55,7 @@ def ctx_tag(ectx, bid):
 def classify_apply_exception(case, exc):
     """signature of an exception that came out of apply()"""
     tb = traceback.extract_tb(exc.__traceback__)
-    frames = [f for f in tb if f.filename.startswith("/repo/src")]
+    frames = [f for f in tb if f.filename.startswith(common.REPO_SRC)]
     where = "?"
     if frames:
         f = frames[-1]
